@@ -335,6 +335,38 @@ def _gdict_iter(self, it):
 GDict.sym_lazy_filter = _gdict_lazy_filter
 
 
+def dict_from_pairs(it, d, src):
+    """dict(<lazy sequence of (key, value) pairs>) stored into the empty ghost dict `d`: a key is present iff some pair
+    carries it, and its value is that of the LAST such pair (CPython: later pairs overwrite; an overridden __setitem__
+    is not consulted).  The pair expression is evaluated once, for a generic index; LAST is a Skolem function."""
+    f = getattr(src, "filtered", src)
+    if type(f).__name__ != "SFiltered" or (getattr(f, "elt_it", None) is None and f.elt is None):
+        raise Unsupported("dict() of %r" % (src,))
+    i0 = z3.Int(_fresh("pi"))
+    npend, npc = len(it.path.pending), len(it.path.pc)
+    pair = f.elt_it(it, i0) if getattr(f, "elt_it", None) is not None else f.elt(i0)
+    if len(it.path.pending) != npend or len(it.path.pc) != npc:
+        raise Unsupported("dict(): the (key, value) expression branches")
+    if not (isinstance(pair, tuple) and len(pair) == 2):
+        raise Unsupported("dict(): elements are not pairs")
+    tk, tv = d.key_of(pair[0]), d.wrap(pair[1])
+    n, cond = f.n, f.cond
+    key = lambda j: z3.substitute(tk, (i0, j))
+    val = lambda j: z3.substitute(tv, (i0, j))
+    kept = lambda j: z3.And(0 <= j, j < n, cond(j))
+    LAST = z3.Function(_fresh("last_" + d.name), d.ksort, z3.IntSort())
+    HAS = z3.Array(_fresh(d.name + "_has"), d.ksort, z3.BoolSort())
+    VAL = z3.Array(_fresh(d.name + "_val"), d.ksort, d.vsort)
+    i = z3.Int(_fresh("pj"))
+    k = z3.Const(_fresh("pk"), d.ksort)
+    it.path.assume(z3.ForAll([k], z3.Select(HAS, k) == z3.And(kept(LAST(k)), key(LAST(k)) == k)))
+    it.path.assume(z3.ForAll([i], z3.Implies(kept(i), z3.And(z3.Select(HAS, key(i)), LAST(key(i)) >= i))))
+    it.path.assume(z3.ForAll([k], z3.Implies(z3.Select(HAS, k), z3.Select(VAL, k) == val(LAST(k)))))
+    d.HAS, d.VAL = HAS, VAL
+    d.pairs = {"n": n, "kept": kept, "key": key, "val": val, "last": LAST}
+    return d
+
+
 def dictcomp(it, node, frame, src):
     """{K: V for k in <keys of a ghost dict> if C}: explored once for a generic key.  K must be the key itself.  The result is
     a ghost dict with HAS(k) = source has k and every filter holds, VAL(k) = V evaluated at k.  If evaluating the filters or V
